@@ -51,23 +51,38 @@ var c14ProbeWatchdog = 2 * time.Second
 
 // ---------------------------------------------------------------- in-memory collaborators
 
+// memDKGClient records what a process sends; with routes set it also delivers to the in-process peers
+// (used only to run a real three-node DKG to completion for the phase "complete").
 type memDKGClient struct {
 	mu      sync.Mutex
 	packets []*pdkg.GossipPacket
 	dkgs    []*pdkg.DKGPacket
+	routes  map[string]*dkg.Process
 }
 
-func (c *memDKGClient) Packet(_ context.Context, _ dnet.Peer, p *pdkg.GossipPacket, _ ...grpc.CallOption) (*pdkg.EmptyDKGResponse, error) {
+func (c *memDKGClient) route(addr string) *dkg.Process {
 	c.mu.Lock()
 	defer c.mu.Unlock()
+	return c.routes[addr]
+}
+
+func (c *memDKGClient) Packet(ctx context.Context, to dnet.Peer, p *pdkg.GossipPacket, _ ...grpc.CallOption) (*pdkg.EmptyDKGResponse, error) {
+	c.mu.Lock()
 	c.packets = append(c.packets, p)
+	c.mu.Unlock()
+	if t := c.route(to.Address()); t != nil {
+		return t.Packet(ctx, proto.Clone(p).(*pdkg.GossipPacket))
+	}
 	return &pdkg.EmptyDKGResponse{}, nil
 }
 
-func (c *memDKGClient) BroadcastDKG(_ context.Context, _ dnet.Peer, p *pdkg.DKGPacket, _ ...grpc.CallOption) (*pdkg.EmptyDKGResponse, error) {
+func (c *memDKGClient) BroadcastDKG(ctx context.Context, to dnet.Peer, p *pdkg.DKGPacket, _ ...grpc.CallOption) (*pdkg.EmptyDKGResponse, error) {
 	c.mu.Lock()
-	defer c.mu.Unlock()
 	c.dkgs = append(c.dkgs, p)
+	c.mu.Unlock()
+	if t := c.route(to.Address()); t != nil {
+		return t.BroadcastDKG(ctx, proto.Clone(p).(*pdkg.DKGPacket))
+	}
 	return &pdkg.EmptyDKGResponse{}, nil
 }
 
@@ -125,12 +140,12 @@ type dkgInst struct {
 	w          *c14World
 	phase      string
 	dirs       []string
-	M, L       *dkg.Process
+	M, L, O    *dkg.Process
 	cliM, cliL *memDKGClient
 	proposal   *pdkg.GossipPacket // valid, signed by the leader
 	execute    *pdkg.GossipPacket // valid, signed by the leader
 	dd         *core.DrandDaemon
-	lis        dnet.Listener
+	gw         *dnet.PrivateGateway
 	conn       *grpc.ClientConn
 	wedged     bool
 	seq        uint32
@@ -144,8 +159,8 @@ func (in *dkgInst) close() {
 	if in.conn != nil {
 		in.conn.Close()
 	}
-	if in.lis != nil {
-		in.lis.Stop(context.Background())
+	if in.gw != nil {
+		in.gw.StopAll(context.Background())
 	}
 	done := make(chan struct{})
 	go func() {
@@ -155,6 +170,9 @@ func (in *dkgInst) close() {
 			in.M.Close()
 		}
 		in.L.Close()
+		if in.O != nil {
+			in.O.Close()
+		}
 	}()
 	select {
 	case <-done:
@@ -173,12 +191,16 @@ func mustOK(what string, err error) {
 
 func newDKGInst(w *c14World, phase string) *dkgInst {
 	in := &dkgInst{w: w, phase: phase, cliM: &memDKGClient{}, cliL: &memDKGClient{}}
+	kickoff := time.Hour
+	if phase == "complete" {
+		kickoff = 300 * time.Millisecond
+	}
 	mkProc := func(pair *key.Pair, cli *memDKGClient) *dkg.Process {
 		dir := tmpDir()
 		in.dirs = append(in.dirs, dir)
 		st, err := dkg.NewDKGStore(dir)
 		mustOK("NewDKGStore", err)
-		cfg := dkg.Config{Timeout: time.Hour, TimeBetweenDKGPhases: 5 * time.Second, KickoffGracePeriod: time.Hour}
+		cfg := dkg.Config{Timeout: time.Hour, TimeBetweenDKGPhases: 2 * time.Second, KickoffGracePeriod: kickoff}
 		return dkg.NewDKGProcess(st, stubIdent{map[string]*key.Pair{c14BeaconID: pair}}, util.NewFanOutChan[dkg.SharingOutput](),
 			cli, nil, cfg, quietLogger())
 	}
@@ -188,6 +210,12 @@ func newDKGInst(w *c14World, phase string) *dkgInst {
 	cmd := func(c *pdkg.DKGCommand) *pdkg.DKGCommand {
 		c.Metadata = &pdkg.CommandMetadata{BeaconID: c14BeaconID}
 		return c
+	}
+	if phase == "complete" {
+		in.completeDKG(mkProc, cmd)
+		bps := map[string]*core.BeaconProcess{c14BeaconID: core.VerifNewBeaconProcess(c14BeaconID, w.M, nil, nil, nil, nil, quietLogger(), nil, nil)}
+		in.dd = core.VerifNewDaemon(quietLogger(), in.M, bps)
+		return in
 	}
 	// the leader proposes (real Command path: signs and "gossips" into cliL)
 	_, err := in.L.Command(ctx, cmd(&pdkg.DKGCommand{Command: &pdkg.DKGCommand_Initial{Initial: &pdkg.FirstProposalOptions{
@@ -235,15 +263,72 @@ func newDKGInst(w *c14World, phase string) *dkgInst {
 	return in
 }
 
+// completeDKG runs a real three-node initial DKG (leader, node under test, a third member), all in-process, the
+// processes talking through routing in-memory clients, and waits until the node under test has stored the finished state.
+func (in *dkgInst) completeDKG(mkProc func(*key.Pair, *memDKGClient) *dkg.Process, cmd func(*pdkg.DKGCommand) *pdkg.DKGCommand) {
+	w := in.w
+	cliO := &memDKGClient{}
+	in.O = mkProc(w.O, cliO)
+	routes := map[string]*dkg.Process{w.L.Public.Addr: in.L, w.M.Public.Addr: in.M, w.O.Public.Addr: in.O}
+	for _, c := range []*memDKGClient{in.cliL, in.cliM, cliO} {
+		c.routes = routes
+	}
+	ctx := context.Background()
+	_, err := in.L.Command(ctx, cmd(&pdkg.DKGCommand{Command: &pdkg.DKGCommand_Initial{Initial: &pdkg.FirstProposalOptions{
+		Timeout: timestamppb.New(time.Now().Add(time.Hour)), Threshold: 2, PeriodSeconds: 3, Scheme: w.sch.Name,
+		CatchupPeriodSeconds: 1, GenesisTime: timestamppb.New(time.Now().Add(time.Hour)),
+		Joining: []*pdkg.Participant{w.pL, w.pM, w.pO}}}}))
+	mustOK("leader Initial", err)
+	for _, c := range in.cliL.packets {
+		if c.GetProposal() != nil {
+			in.proposal = proto.Clone(c).(*pdkg.GossipPacket)
+		}
+	}
+	_, err = in.M.Command(ctx, cmd(&pdkg.DKGCommand{Command: &pdkg.DKGCommand_Join{Join: &pdkg.JoinOptions{}}}))
+	mustOK("join M", err)
+	_, err = in.O.Command(ctx, cmd(&pdkg.DKGCommand{Command: &pdkg.DKGCommand_Join{Join: &pdkg.JoinOptions{}}}))
+	mustOK("join O", err)
+	_, err = in.L.Command(ctx, cmd(&pdkg.DKGCommand{Command: &pdkg.DKGCommand_Execute{Execute: &pdkg.ExecutionOptions{}}}))
+	mustOK("leader Execute", err)
+	deadline := time.Now().Add(30 * time.Second)
+	for {
+		st, err := in.M.DKGStatus(ctx, &pdkg.DKGStatusRequest{BeaconID: c14BeaconID})
+		if err == nil && st.GetComplete() != nil && st.GetComplete().GetState() == uint32(dkg.Complete) {
+			break
+		}
+		if time.Now().After(deadline) {
+			panic(fmt.Sprintf("harness setup: three-node DKG did not complete: %v %v", st, err))
+		}
+		time.Sleep(20 * time.Millisecond)
+	}
+	in.cliL.mu.Lock()
+	for _, c := range in.cliL.packets {
+		if c.GetExecute() != nil {
+			in.execute = proto.Clone(c).(*pdkg.GossipPacket)
+		}
+	}
+	in.cliL.mu.Unlock()
+	if in.execute == nil || in.proposal == nil {
+		panic("harness setup: templates not captured (complete)")
+	}
+	// stop delivering: from here on the node under test only hears from the op stream
+	for _, c := range []*memDKGClient{in.cliL, in.cliM, cliO} {
+		c.mu.Lock()
+		c.routes = nil
+		c.mu.Unlock()
+	}
+}
+
 func (in *dkgInst) grpcConn() *grpc.ClientConn {
 	if in.conn != nil {
 		return in.conn
 	}
-	lis, err := dnet.NewGRPCListenerForPrivate(context.Background(), "127.0.0.1:0", in.dd)
-	mustOK("NewGRPCListenerForPrivate", err)
-	lis.Start()
-	in.lis = lis
-	conn, err := grpc.NewClient(lis.Addr(), grpc.WithTransportCredentials(insecure.NewCredentials()),
+	// the production constructor of the peer-facing gateway (listener with its interceptor chain + clients)
+	gw, err := dnet.NewGRPCPrivateGateway(context.Background(), "127.0.0.1:0", in.dd)
+	mustOK("NewGRPCPrivateGateway", err)
+	gw.StartAll()
+	in.gw = gw
+	conn, err := grpc.NewClient(gw.Listener.Addr(), grpc.WithTransportCredentials(insecure.NewCredentials()),
 		grpc.WithDefaultCallOptions(grpc.MaxCallSendMsgSize(64<<20), grpc.MaxCallRecvMsgSize(64<<20)))
 	mustOK("grpc.NewClient", err)
 	in.conn = conn
